@@ -1,1 +1,276 @@
-/-! Property theorems for C18 (only property-level statements and non-vacuity examples live here). -/
+import SpoxModel.Lemmas.Emit
+import SpoxModel.Model.Custom
+/-!
+# C18 — user-defined operators are emitted verbatim and compose like standard ones
+
+Property theorems only. The model (`Model/Custom.lean`, `Model/Emit.lean`) is tied to the code by
+correspondence (H): every run synthesises operator classes, instantiates them on the real spox and
+compares NodeProto, opset imports, output Var types/values and warnings with these definitions.
+-/
+namespace C18
+open Emit Custom
+
+variable {α β T V : Type}
+
+/-! ## emission -/
+
+/-- **custom_verbatim.** A user-defined operator is emitted as exactly one node carrying the
+    declared operator name and domain; its inputs (and outputs) are the full positional list in
+    declared field order — variadics flattened in place, `""` (`none`) for every absent optional,
+    *nothing trimmed*; its attributes are exactly the ones that are set, under the names their
+    `Attr` objects carry, in declared order. -/
+theorem custom_verbatim (n : NodeIn α β) :
+    ∃ p, toOnnx n = [p] ∧ p.opType = n.opType ∧ p.domain = n.domain ∧
+      p.inputs = flatten n.inputs ∧ p.outputs = flatten n.outputs ∧
+      p.attrs = n.attrs.filterMap id := by
+  refine ⟨_, rfl, rfl, rfl, ?_, ?_, ?_⟩
+  · exact trim_len _
+  · exact trim_len _
+  · exact emitAttrs_eq_filterMap _
+
+/-- the number of emitted input names is the number of declared slots (after flattening) -/
+theorem custom_arity (n : NodeIn α β) (p : NodeOut α β) (h : toOnnx n = [p]) :
+    p.inputs.length = len n.inputs ∧ p.outputs.length = len n.outputs := by
+  obtain ⟨q, hq, _, _, hi, ho, _⟩ := custom_verbatim n
+  rw [hq] at h; cases h
+  simp [hi, ho, len]
+
+/-! ## opset imports -/
+
+theorem mem_domainsOf (reqs : List (String × Nat)) (d : String) :
+    d ∈ domainsOf reqs ↔ ∃ r ∈ reqs, normDomain r.1 = d := by
+  induction reqs with
+  | nil => simp [domainsOf]
+  | cons r rest ih =>
+    obtain ⟨d', v⟩ := r
+    simp only [domainsOf]
+    split
+    · rename_i hc
+      rw [ih]
+      constructor
+      · rintro ⟨r, hr, he⟩; exact ⟨r, List.mem_cons_of_mem _ hr, he⟩
+      · rintro ⟨r, hr, he⟩
+        rcases List.mem_cons.mp hr with h | h
+        · subst h
+          have hthis : normDomain d' ∈ domainsOf rest := by simpa using hc
+          have he' : normDomain d' = d := he
+          exact ih.mp (he' ▸ hthis)
+        · exact ⟨r, h, he⟩
+    · simp only [List.mem_cons, ih]
+      constructor
+      · rintro (h | ⟨r, hr, he⟩)
+        · exact ⟨(d', v), Or.inl rfl, h.symm⟩
+        · exact ⟨r, Or.inr hr, he⟩
+      · rintro ⟨r, hr | hr, he⟩
+        · subst hr; exact Or.inl he.symm
+        · exact Or.inr ⟨r, hr, he⟩
+
+theorem domainsOf_nodup (reqs : List (String × Nat)) : (domainsOf reqs).Nodup := by
+  induction reqs with
+  | nil => simp [domainsOf]
+  | cons r rest ih =>
+    obtain ⟨d', v⟩ := r
+    simp only [domainsOf]
+    split
+    · exact ih
+    · rename_i hc
+      exact List.nodup_cons.mpr ⟨by simpa using hc, ih⟩
+
+theorem maxFor_ge (d : String) (reqs : List (String × Nat)) (r : String × Nat)
+    (hr : r ∈ reqs) (hd : normDomain r.1 = d) : r.2 ≤ maxFor d reqs := by
+  induction reqs with
+  | nil => cases hr
+  | cons x rest ih =>
+    obtain ⟨d', v⟩ := x
+    simp only [maxFor]
+    rcases List.mem_cons.mp hr with h | h
+    · subst h; simp [hd]; omega
+    · have := ih h
+      split <;> omega
+
+theorem maxFor_attained (d : String) (reqs : List (String × Nat))
+    (h : ∃ r ∈ reqs, normDomain r.1 = d) :
+    ∃ r ∈ reqs, normDomain r.1 = d ∧ r.2 = maxFor d reqs := by
+  induction reqs with
+  | nil => obtain ⟨r, hr, _⟩ := h; cases hr
+  | cons x rest ih =>
+    obtain ⟨d', v⟩ := x
+    simp only [maxFor]
+    by_cases hx : normDomain d' = d
+    · simp only [hx, beq_self_eq_true, if_true]
+      by_cases hrest : ∃ r ∈ rest, normDomain r.1 = d
+      · obtain ⟨r, hr, hd, hm⟩ := ih hrest
+        by_cases hv : maxFor d rest ≤ v
+        · exact ⟨(d', v), List.mem_cons_self, hx, by simp [Nat.max_eq_left hv]⟩
+        · exact ⟨r, List.mem_cons_of_mem _ hr, hd, by simp [hm]; omega⟩
+      · have h0 : maxFor d rest = 0 := by
+          clear ih h
+          induction rest with
+          | nil => rfl
+          | cons y ys ihy =>
+            obtain ⟨d2, v2⟩ := y
+            simp only [maxFor]
+            have hne : ¬ normDomain d2 = d := fun e => hrest ⟨(d2, v2), List.mem_cons_self, e⟩
+            have : (normDomain d2 == d) = false := by simpa using hne
+            rw [this]
+            exact ihy (fun ⟨r, hr, he⟩ => hrest ⟨r, List.mem_cons_of_mem _ hr, he⟩)
+        exact ⟨(d', v), List.mem_cons_self, hx, by simp [h0]⟩
+    · have hb : (normDomain d' == d) = false := by simpa using hx
+      simp only [hb]
+      obtain ⟨r, hr, hd⟩ := h
+      rcases List.mem_cons.mp hr with h1 | h1
+      · subst h1; exact absurd hd hx
+      · obtain ⟨r', hr', hd', hm'⟩ := ih ⟨r, h1, hd⟩
+        exact ⟨r', List.mem_cons_of_mem _ hr', hd', by simpa using hm'⟩
+
+/-- **custom_import.** Whatever the program's requirement set is (any mix of standard operators,
+    several user-defined operators of the same or different domains, at any versions): for every
+    requirement `(d, v)` — in particular the `(domain, version)` of every custom node — the opset
+    imports contain exactly one entry for `d`, its version is the *highest* version required for
+    `d` by anything in the program (so `≥ v`, and some node really asks for it). -/
+theorem custom_import (reqs : List (String × Nat)) (d : String) (v : Nat) (h : (d, v) ∈ reqs) :
+    let imports := maxOpsetPolicy reqs
+    (normDomain d, maxFor (normDomain d) reqs) ∈ imports ∧
+    (∀ w, (normDomain d, w) ∈ imports → w = maxFor (normDomain d) reqs) ∧
+    (imports.map (·.1)).Nodup ∧
+    v ≤ maxFor (normDomain d) reqs ∧
+    (∃ r ∈ reqs, normDomain r.1 = normDomain d ∧ r.2 = maxFor (normDomain d) reqs) ∧
+    (∀ r ∈ reqs, normDomain r.1 = normDomain d → r.2 ≤ maxFor (normDomain d) reqs) := by
+  have hmem : normDomain d ∈ domainsOf reqs := (mem_domainsOf reqs _).mpr ⟨(d, v), h, rfl⟩
+  refine ⟨?_, ?_, ?_, ?_, ?_, ?_⟩
+  · exact List.mem_map.mpr ⟨_, hmem, rfl⟩
+  · intro w hw
+    obtain ⟨d2, _, he⟩ := List.mem_map.mp hw
+    cases he; rfl
+  · simp only [maxOpsetPolicy, List.map_map]
+    have : ((fun x : String × Nat => x.1) ∘ fun d => (d, maxFor d reqs)) = id := rfl
+    rw [this, List.map_id]; exact domainsOf_nodup reqs
+  · exact maxFor_ge _ reqs (d, v) h rfl
+  · exact maxFor_attained _ reqs ⟨(d, v), h, rfl⟩
+  · intro r hr he; exact maxFor_ge _ reqs r hr he
+
+/-- a custom domain is never folded into the default one -/
+theorem custom_domain_kept (d : String) (h : d ≠ "ai.onnx") : normDomain d = d := by
+  simp [normDomain, h]
+
+/-! ## hooks -/
+
+/-- **hooks_determine.** After `Node.inference`, for every output Var (same keys, same order):
+    * its type is what it was if it had one, else exactly the type hook's entry for its key (keys
+      the hook does not mention stay untyped; keys that are no outputs are ignored);
+    * its value is what it was if it had one, else the value hook's entry for its key *iff* the Var
+      is typed and the entry passes `check` against that type; otherwise it stays without value;
+    nothing else enters: the result is a function of the two hook results and `check` alone. -/
+theorem hooks_determine (check : T → V → Bool) (thook : List (String × T))
+    (vhook : List (String × V)) (outs : List (OutState T V)) :
+    (inference check thook vhook outs).1 = outs.map fun o =>
+      let ty := match o.type with
+        | some t => some t
+        | none => lookup thook o.key
+      { key := o.key, type := ty,
+        value := match o.value with
+          | some v => some v
+          | none => match ty, lookup vhook o.key with
+            | some t, some v => if check t v then some v else none
+            | _, _ => none } := by
+  simp only [inference, List.map_map]
+  apply List.map_congr_left
+  intro o _
+  obtain ⟨k, ty, va⟩ := o
+  cases ty <;> cases va <;> simp only [Function.comp, mergeType, mergeValue] <;>
+    cases h1 : lookup thook k <;> cases h2 : lookup vhook k <;> simp <;>
+    (try (split <;> simp_all))
+
+/-- **missing hooks.** Without hooks (or with hooks returning nothing) every output Var stays
+    untyped and without value, no value warning is raised, and `validate_types` emits exactly one
+    "missing type" warning per output (at warning levels above NONE) — a total function: there is
+    no error case. -/
+theorem no_hooks_untyped (check : T → V → Bool) (keys : List String) (level : Nat)
+    (concrete : T → Bool) (inTypes : List (Option T)) (hl : 0 < level) :
+    (inference check [] [] (freshOuts keys)).1 = freshOuts keys ∧
+    (inference check [] [] (freshOuts keys : List (OutState T V))).2 = [] ∧
+    ∀ k, Warn.missing k ∈ validateWarnings level concrete inTypes
+        (inference check [] [] (freshOuts keys : List (OutState T V))).1 ↔ k ∈ keys := by
+  have h1 : (inference check [] [] (freshOuts keys : List (OutState T V))).1 = freshOuts keys := by
+    rw [hooks_determine]
+    simp [freshOuts, lookup]
+  refine ⟨h1, ?_, ?_⟩
+  · simp only [inference, freshOuts, List.map_map, List.flatMap_eq_nil_iff]
+    intro l hl
+    obtain ⟨k, _, rfl⟩ := List.mem_map.mp hl
+    simp [mergeType, mergeValue, lookup]
+  · intro k
+    rw [h1]
+    have hne : level ≠ 0 := by omega
+    have hmiss : ∀ (l : List (OutState T V)), l = freshOuts keys →
+        (Warn.missing k ∈ l.filterMap (fun o => if o.type.isNone then some (Warn.missing o.key) else none)
+          ↔ k ∈ keys) := by
+      intro l hl; subst hl
+      simp [freshOuts, List.mem_filterMap]
+    have hnc : ∀ (l : List (OutState T V)), l = freshOuts keys →
+        ¬ Warn.missing k ∈ l.filterMap (fun o => match o.type with
+          | some t => if concrete t then none else some (Warn.notConcrete o.key)
+          | none => none) := by
+      intro l hl; subst hl
+      simp [freshOuts, List.mem_filterMap]
+    simp only [validateWarnings, if_neg hne]
+    split
+    · exact hmiss _ rfl
+    · split
+      · exact hmiss _ rfl
+      · rw [List.mem_append]
+        constructor
+        · rintro (h | h)
+          · exact (hmiss _ rfl).mp h
+          · exact absurd h (hnc _ rfl)
+        · intro h; exact Or.inl ((hmiss _ rfl).mpr h)
+
+/-- every dropped value is reported, and only those -/
+theorem dropped_iff (check : T → V → Bool) (thook : List (String × T)) (vhook : List (String × V))
+    (outs : List (OutState T V)) (w : Warn) :
+    w ∈ (inference check thook vhook outs).2 ↔
+      ∃ o ∈ outs, ∃ t v, (mergeType thook o).type = some t ∧ o.value = none ∧
+        lookup vhook o.key = some v ∧ check t v = false ∧ w = Warn.dropped o.key := by
+  simp only [inference, List.mem_flatMap, List.mem_map]
+  constructor
+  · rintro ⟨x, ⟨o', ⟨o, ho, rfl⟩, rfl⟩, hw⟩
+    refine ⟨o, ho, ?_⟩
+    have hk : (mergeType thook o).key = o.key := by unfold mergeType; split <;> rfl
+    have hv : (mergeType thook o).value = o.value := by unfold mergeType; split <;> rfl
+    unfold mergeValue at hw
+    split at hw
+    · rename_i t v h1 h2 h3
+      split at hw
+      · simp at hw
+      · rename_i hc
+        simp at hw
+        exact ⟨t, v, h1, hv ▸ h2, hk ▸ h3, by simpa using hc, by rw [hw, hk]⟩
+    · simp at hw
+  · rintro ⟨o, ho, t, v, h1, h2, h3, h4, rfl⟩
+    refine ⟨_, ⟨_, ⟨o, ho, rfl⟩, rfl⟩, ?_⟩
+    have hk : (mergeType thook o).key = o.key := by unfold mergeType; split <;> rfl
+    have hv : (mergeType thook o).value = o.value := by unfold mergeType; split <;> rfl
+    unfold mergeValue
+    rw [h1, hv, h2, hk, h3]
+    simp [h4]
+
+/-! ## non-vacuity -/
+
+/-- `MyOp(a, None, c, rest=[r0, r1])`: inner *and* trailing absent optionals stay -/
+example : (toOnnx ({
+      opType := "MyOp", domain := "my.domain", version := 3, mins := none,
+      inputs := [Arg.single "a", .opt none, .opt (some "c"), .variadic ["r0", "r1"], .opt none],
+      outputs := [Arg.single "y"], attrs := [some ("k", 3), none, some ("s", 7)] } : NodeIn String Nat)) =
+    [{ opType := "MyOp", domain := "my.domain",
+       inputs := [some "a", none, some "c", some "r0", some "r1", none],
+       outputs := [some "y"], attrs := [("k", 3), ("s", 7)] }] := by decide
+
+example : maxOpsetPolicy [("", 17), ("my.domain", 2), ("ai.onnx", 18), ("my.domain", 5), ("other", 1)] =
+    [("", 18), ("my.domain", 5), ("other", 1)] := by decide
+
+/-- partial type hook, junk key, ill-typed value -/
+example : inference (fun (t : Nat) (v : Nat) => t == v) [("y", 1), ("junk", 9)] [("y", 2), ("z", 1), ("junk", 0)]
+      (freshOuts ["y", "z"]) =
+    ([⟨"y", some 1, none⟩, ⟨"z", none, none⟩], [Warn.dropped "y"]) := by decide
+
+end C18
